@@ -407,6 +407,7 @@ func checkAddCommittedShape(P *core.Program, R *core.Report) {
 	unlock := ssa.Value(fn.Params[3])
 	bad := ""
 	nAmt, nLock := 0, 0
+	amtStores := map[ssa.Instruction]bool{}
 	for _, b := range fn.Blocks {
 		for _, in := range b.Instrs {
 			st, ok := in.(*ssa.Store)
@@ -419,6 +420,12 @@ func checkAddCommittedShape(P *core.Program, R *core.Report) {
 			}
 			owner := core.NamedName(fa.X.Type())
 			_, fresh := fa.X.(*ssa.Alloc)
+			if ia, ok := fa.X.(*ssa.IndexAddr); ok {
+				// an element of a slice / array literal built here
+				if _, isArr := ia.X.(*ssa.Alloc); isArr {
+					fresh = true
+				}
+			}
 			val := ff.Fwd(st.Val)
 			isAdd := false
 			if call, ok := val.(*ssa.Call); ok && call.Common().StaticCallee() != nil && call.Common().StaticCallee().Name() == "Add" && len(call.Common().Args) == 2 {
@@ -427,6 +434,7 @@ func checkAddCommittedShape(P *core.Program, R *core.Report) {
 			switch owner {
 			case "CommittedTokens":
 				nAmt++
+				amtStores[in] = true
 				if !(fresh && val == amount) && !isAdd {
 					bad = "CommittedTokens.Amount is not set to amount (new entry) / old.Add(amount) (existing entry) at " + P.Pos(P.InstrPos(in))
 				}
@@ -450,7 +458,12 @@ func checkAddCommittedShape(P *core.Program, R *core.Report) {
 			}
 		}
 	}
-	R.Add("C12-helper-shape", key, "+amount on both branches; lock-ups", P.Pos(fn.Pos()), bad == "" && nAmt == 2 && nLock == 2,
+	// every way through the function adds the amount once: no exit is reachable without a
+	// committed-amount write (found branch and append branch alike)
+	if _, skip := ff.SuccessExitReachableWithout(nil, func(in ssa.Instruction) bool { return amtStores[in] }); skip && bad == "" {
+		bad = "a path returns without adding amount to a committed entry"
+	}
+	R.Add("C12-helper-shape", key, "+amount on both branches; lock-ups", P.Pos(fn.Pos()), bad == "" && nAmt >= 1 && nLock >= 1,
 		"AddCommittedTokens must add amount to the committed entry (existing or new) and record a lock-up of exactly amount when unlockTime != 0. "+bad)
 }
 
